@@ -57,8 +57,8 @@ theorem skipWS_k7 (rest : Bytes) :
 
 /-- `readObjectTop` agrees with `readObject` whenever the latter succeeds -/
 theorem readObjectTop_of_readObject (file : Bytes) (p : Nat) (getInt : Obj → Except Err Int) (v : Obj) (k : Bytes)
-    (h : readObject (objFuel (file.drop p)) 0 (file.drop p) = .ok (v, k)) :
-    readObjectTop file p getInt false = .ok (.obj v, file.length - k.length) := by
+    (h : readObject (objFuel (file.drop p)) 0 (file.drop p) = .ok (v, k)) (limit : Option Nat := none) :
+    readObjectTop file p getInt false limit = .ok (.obj v, file.length - k.length) := by
   unfold readObjectTop
   generalize file.drop p = inp at h
   simp only []
@@ -105,8 +105,8 @@ its reference, and stops behind `endobj`. -/
 theorem his_indirect_obj_rt (opt : FmtOpt) (o : Obj) (hg : good o = true) (hd : depthOk o) (hr : isRefObj o = false)
     (num gen : Nat) (hnum : num < Gen.his_xref_maxXRefSize) (hgen : gen ≤ Gen.his_xref_maxGeneration) :
     ∃ body, format opt [o] = some body ∧ nrm (rd o.canon) = nrm o ∧
-      ∀ (pre rest : Bytes) (getInt : Obj → Except Err Int),
-      readIndirect (pre ++ (objText num gen body ++ rest)) pre.length getInt false
+      ∀ (pre rest : Bytes) (getInt : Obj → Except Err Int) (limit : Option Nat),
+      readIndirect (pre ++ (objText num gen body ++ rest)) pre.length getInt false limit
         = .ok { val := .obj (rd o.canon), num := num, gen := gen, endPos := pre.length + (objText num gen body).length } := by
   have hgc := good_canon o hg
   obtain ⟨⟨bs, ns'⟩, hf⟩ := fmtObj_some opt o.canon hgc false
@@ -117,7 +117,7 @@ theorem his_indirect_obj_rt (opt : FmtOpt) (o : Obj) (hg : good o = true) (hd : 
     · cases h
   subst hbt
   refine ⟨bs, (format_single opt o bs).mpr ⟨ns', hf⟩, nrm_rd_canon o hg, ?_⟩
-  intro pre rest getInt
+  intro pre rest getInt limit
   have hdc : 0 + depthOf o.canon ≤ Gen.scanner_maxScannerNestDepth := by
     have := depth_canon o; unfold depthOk at hd; omega
   obtain ⟨k', h1, h2, _⟩ := readsBack_all opt o.canon hgc (by rw [isRefObj_canon]; exact hr) 0 hdc
@@ -135,7 +135,7 @@ theorem his_indirect_obj_rt (opt : FmtOpt) (o : Obj) (hg : good o = true) (hd : 
     have : file = (pre ++ hdr) ++ (bs ++ (k7 ++ rest)) := by rw [hfile1]; simp [List.append_assoc]
     rw [this]; exact C04hisb.drop_len_append _ _
   have htop := readObjectTop_of_readObject file (file.length - (bs ++ (k7 ++ rest)).length) getInt (rd o.canon) k'
-    (by rw [hdrop1]; exact h1)
+    (by rw [hdrop1]; exact h1) limit
   have hk' : skipWS k' = (101 :: ([110, 100, 111, 98, 106] ++ rest), false) := by
     rcases h2 with h | h
     · rw [h]; exact skipWS_k7 rest
@@ -173,7 +173,7 @@ theorem his_indirect_obj_rt (opt : FmtOpt) (o : Obj) (hg : good o = true) (hd : 
   have e4 : skipWS (10 :: (bs ++ (k7 ++ rest))) = (bs ++ (k7 ++ rest), false) := by
     rw [skipWS_lf, htok]
     exact skipWS_tok c _ (objStart_tokStart hstart)
-  show readIndirect file pre.length getInt false = _
+  show readIndirect file pre.length getInt false limit = _
   unfold readIndirect
   rw [hdrop0, e0, e1]
   simp only [e2, e3]
@@ -202,17 +202,38 @@ theorem IsSuffix.len {r g : Bytes} (h : IsSuffix r g) : r.length ≤ g.length :=
 theorem isSuffix_drop_ge (file : Bytes) (pos p : Nat) (h : pos ≤ p) : IsSuffix (file.drop p) (file.drop pos) :=
   ⟨p - pos, by rw [List.drop_drop]; congr 1; omega⟩
 
-theorem recoverExtent_after (file : Bytes) (start : Nat) (ext : StreamExt)
-    (h : recoverExtent file start = .ok ext) : start ≤ ext.after := by
+theorem recoverExtent_after (file : Bytes) (start : Nat) (ext : StreamExt) (limit : Option Nat := none)
+    (h : recoverExtent file start limit = .ok ext) : start ≤ ext.after := by
   unfold recoverExtent at h
-  split at h
-  · cases h
-  · cases h; simp only []; omega
+  repeat' (first | (cases h; done) | split at h)
+  all_goals (cases h; simp only []; omega)
 
-theorem readStreamData_after (file : Bytes) (p : Nat) (declared : Option Nat) (ext : StreamExt)
-    (h : readStreamData file p declared = .ok ext) : p ≤ ext.after := by
+/-- `findLimit` (1430e5c): a recovered extent under the limit `l` (the start of the next located
+    object) is the extent found without a limit, and its EOL+`endstream` begins in front of `l`;
+    a first EOL+`endstream` at or behind `l` is an error (the object becomes Broken instead of
+    swallowing its successor) -/
+theorem recoverExtent_limit (file : Bytes) (start l : Nat) :
+    (∀ ext, recoverExtent file start (some l) = .ok ext →
+        recoverExtent file start none = .ok ext ∧ ext.after < l + 10) ∧
+    (∀ ext, recoverExtent file start none = .ok ext → ext.after ≥ l + 10 →
+        recoverExtent file start (some l) = .error .malformed) := by
+  unfold recoverExtent
+  cases findEolEndstream (file.drop start) with
+  | none => exact ⟨fun ext h => (by cases h), fun ext h => (by cases h)⟩
+  | some i =>
+    simp only [Bool.false_eq_true, if_false, decide_eq_true_eq]
+    by_cases hl : start + i ≥ l
+    · simp only [hl, if_true]
+      exact ⟨fun ext h => (by cases h), fun ext _ _ => trivial⟩
+    · simp only [hl, if_false]
+      refine ⟨fun ext h => ⟨h, ?_⟩, fun ext h hge => ?_⟩
+      · cases h; simp only []; omega
+      · cases h; simp only [] at hge; omega
+
+theorem readStreamData_after (file : Bytes) (p : Nat) (declared : Option Nat) (ext : StreamExt) (limit : Option Nat := none)
+    (h : readStreamData file p declared limit = .ok ext) : p ≤ ext.after := by
   unfold readStreamData at h
-  repeat' (first | (cases h; done) | (have := recoverExtent_after _ _ _ h; omega) | split at h | simp only [] at h)
+  repeat' (first | (cases h; done) | (have := recoverExtent_after _ _ _ _ h; omega) | split at h | simp only [] at h)
   all_goals first
     | (cases h; simp only []; omega)
     | skip
@@ -234,7 +255,7 @@ theorem readStreamData_after (file : Bytes) (p : Nat) (declared : Option Nat) (e
     omega)
 
 theorem readObjectTop_after (file : Bytes) (pos : Nat) (getInt : Obj → Except Err Int) (so : Bool)
-    (v : Val) (p : Nat) (h : readObjectTop file pos getInt so = .ok (v, p)) : pos ≤ p := by
+    (v : Val) (p : Nat) (limit : Option Nat := none) (h : readObjectTop file pos getInt so limit = .ok (v, p)) : pos ≤ p := by
   unfold readObjectTop at h
   have hobj : ∀ (v : Val) (p : Nat), (match readObject (objFuel (file.drop pos)) 0 (file.drop pos) with
       | .error e => (Except.error e : Except Err (Val × Nat))
@@ -264,7 +285,7 @@ theorem readObjectTop_after (file : Bytes) (pos : Nat) (getInt : Obj → Except 
           · split at h
             · cases h
             · rename_i ext hext
-              have := readStreamData_after _ _ _ _ hext
+              have := readStreamData_after _ _ _ _ _ hext
               cases h; omega
         · cases h; omega
   · split at h
@@ -275,7 +296,7 @@ theorem readObjectTop_after (file : Bytes) (pos : Nat) (getInt : Obj → Except 
 /-- **A successful `ReadIndirectObject` at `pos` has seen the keyword `endobj` at or behind
 `pos`.** -/
 theorem ok_implies_endobj_after (file : Bytes) (pos : Nat) (getInt : Obj → Except Err Int) (scalarOnly : Bool)
-    (ind : Indirect) (h : readIndirect file pos getInt scalarOnly = .ok ind) :
+    (ind : Indirect) (limit : Option Nat := none) (h : readIndirect file pos getInt scalarOnly limit = .ok ind) :
     ∃ q, isPrefixOf kwEndobj ((file.drop pos).drop q) = true := by
   have fin : ∀ (v : Val) (r : Bytes) (num gen : Nat), IsSuffix r (file.drop pos) →
       (if startsWith r kwEndobj = true then
@@ -317,7 +338,7 @@ theorem ok_implies_endobj_after (file : Bytes) (pos : Nat) (getInt : Obj → Exc
             · split at h
               · cases h
               · rename_i v p hv
-                have hp := readObjectTop_after _ _ _ _ _ _ hv
+                have hp := readObjectTop_after _ _ _ _ _ _ _ hv
                 -- the reader continues at `p`, which is not before `pos`
                 by_cases hpos : pos ≤ file.length
                 · have hpp : pos ≤ p := by omega
@@ -680,7 +701,7 @@ theorem objText_eq (num gen : Nat) (body : Bytes) :
 /-- **`checkObjects` on a completely written object**: not Broken, with the end offset of
 `endobj` (what `FileInfo.Read` returns is `his_indirect_obj_rt`'s value). -/
 theorem complete_object_checked (file : Bytes) (secs : List HIS.Section) (fo : FileObject) (r : Obj) (e : Nat)
-    (h : ∀ getInt, readIndirect file fo.start getInt false
+    (h : ∀ getInt limit, readIndirect file fo.start getInt false limit
         = .ok { val := .obj r, num := fo.num, gen := fo.gen, endPos := e }) :
     ∃ c, checkObject file secs fo = .ok c ∧ c.broken = false ∧ c.start = fo.start ∧ c.endPos = e
       ∧ c.num = fo.num ∧ c.gen = fo.gen := by
@@ -695,12 +716,12 @@ theorem cut_object_broken (file : Bytes) (secs : List HIS.Section) (fo : FileObj
     ∃ c, checkObject file secs fo = .ok c ∧ c.broken = true := by
   unfold checkObject
   simp only []
-  cases hr : readIndirect file fo.start (fun o => (safeGetInt file secs 12 [] o).2) false with
+  cases hr : readIndirect file fo.start (fun o => (safeGetInt file secs 12 [] o).2) false (nextStart secs fo.start) with
   | ok ind =>
-    obtain ⟨q, hq⟩ := ok_implies_endobj_after _ _ _ _ _ hr
+    obtain ⟨q, hq⟩ := ok_implies_endobj_after _ _ _ _ _ _ hr
     rw [hx q] at hq; cases hq
   | error e =>
-    rcases readIndirect_typed _ _ _ (fun o => safeGetInt_typed file secs 12 [] o) _ e hr with rfl | rfl
+    rcases readIndirect_typed _ _ _ (fun o => safeGetInt_typed file secs 12 [] o) _ _ e hr with rfl | rfl
     · exact ⟨_, rfl, rfl⟩
     · exact ⟨_, rfl, rfl⟩
 
@@ -826,11 +847,11 @@ theorem scan_recovers_flat_partial (opt : FmtOpt) (pre q rest : Bytes)
     have hfile' : file = pre' ++ (objText n g body ++ rest') := by
       simp only [file]; rw [← hfile]; simp [List.append_assoc]
     have hstart : fo.start = pre'.length := by rw [hfoeq]
-    have hr2 : ∀ getInt, readIndirect file fo.start getInt false
+    have hr2 : ∀ getInt limit, readIndirect file fo.start getInt false limit
         = .ok { val := .obj (rd o.canon), num := fo.num, gen := fo.gen, endPos := fo.start + (objText n g body).length } := by
-      intro gi; rw [hfile', hstart, hfoeq]; exact hread pre' rest' gi
+      intro gi lim; rw [hfile', hstart, hfoeq]; exact hread pre' rest' gi lim
     refine ⟨hnrm, ?_, ?_⟩
-    · intro gi; have := hr2 gi; rw [hfoeq] at this ⊢; exact this
+    · intro gi; have := hr2 gi none; rw [hfoeq] at this ⊢; exact this
     · obtain ⟨c, hc, h2, h3, h4, _, _⟩ := complete_object_checked file secs fo (rd o.canon) _ hr2
       exact ⟨c, hc, h2, h3, h4⟩
   intro hne
